@@ -855,3 +855,11 @@ mod tests {
         assert!(!TICKER_RUNNING.load(Ordering::SeqCst));
     }
 }
+
+// Verification hooks (add-only): inert unless built by Kani or with `--cfg indicatif_verif`.
+#[cfg(kani)]
+#[path = "/verif/kani/progress_bar.rs"]
+mod verif_kani;
+#[cfg(indicatif_verif)]
+#[path = "/verif/hooks/progress_bar.rs"]
+pub mod verif_hooks;
